@@ -416,6 +416,7 @@ func (r *runner) run(files []file, bf *faults, restores []restoreSpec) {
 	prog := mgr.GetProgress()
 	backupID := prog.BackupID
 	var bout string
+	invTotal := int64(-1) // total_files of the persisted manifest (parquet inventory)
 	backupOK := berr == nil && prog.Status == "completed"
 	stored := readTree(filepath.Join(backupDir, backupID, "data"))
 	if berr != nil {
@@ -448,6 +449,7 @@ func (r *runner) run(files []file, bf *faults, restores []restoreSpec) {
 		if st != "completed" {
 			st = "status=" + st
 		}
+		invTotal = num("total_files")
 		flag := func(k string) string {
 			v, _ := persisted[k].(bool)
 			return b01(v)
@@ -573,7 +575,11 @@ func (r *runner) run(files []file, bf *faults, restores []restoreSpec) {
 			sort.Strings(lost)
 			if len(lost) > 0 {
 				c.Tag("restore:success-with-lost-files")
-				c.Fail("restore-success-missing-files:restoreDataFiles",
+				key := "restore-success-missing-files:restoreDataFiles"
+				if invTotal == 0 { // the backup inventories no parquet file yet holds files (Iceberg metadata)
+					key = "restore-success-but-files-missing:no-parquet-backup"
+				}
+				c.Fail(key,
 					fmt.Sprintf("RestoreBackup{data:true metadata:%v config:%v} returned nil and status=completed (processed %d of %d) but %d backed-up file(s) were not restored (first: %s)",
 						rs.f.optMeta, rs.f.optCfg, rp.ProcessedFiles, rp.TotalFiles, len(lost), lost[0]),
 					canon.String())
@@ -680,6 +686,16 @@ func genTree(r *vh.Rand) []file {
 	var out []file
 	big := r.Chance(6)
 	nBig := 0
+	// store worlds without (or with few) parquet files: the manifest inventory counts only parquet
+	world := r.Intn(100)
+	if world < 3 {
+		return nil // empty store
+	}
+	if world < 8 { // a single non-parquet file
+		p := vh.Pick(r, []string{"arc_prod.db/cpu/metadata/v1.metadata.json", "arc_db1.db/mem/metadata/snap-1-abcd.avro",
+			"arc_a.db/m.x/metadata/version-hint.text", "prod/cpu/notes.txt", "README", "metadata/top.json"})
+		return []file{{p, content(r, false)}}
+	}
 	add := func(p string) {
 		if seen[p] {
 			return
@@ -697,11 +713,16 @@ func genTree(r *vh.Rand) []file {
 		}
 		out = append(out, file{p, data})
 	}
+	noParquet := world < 22 // ZERO parquet files, but Iceberg metadata / manifests / other files
+	parquetFreeDB := ""     // or: one database holds only non-parquet files
 	dbs := []string{"prod", "db1", "metrics", "a-b", "a", "edge.site"}
 	meass := []string{"cpu", "mem", "sensors", "metadata", "m.x", "disk_io"}
 	ndb := r.Range(1, 3)
 	for i := 0; i < ndb; i++ {
 		db := vh.Pick(r, dbs)
+		if world >= 22 && world < 32 && i == 0 {
+			parquetFreeDB = db
+		}
 		nm := r.Range(1, 3)
 		for j := 0; j < nm; j++ {
 			ms := vh.Pick(r, meass)
@@ -711,13 +732,19 @@ func genTree(r *vh.Rand) []file {
 				nf := r.Range(1, 4)
 				for k := 0; k < nf; k++ {
 					name := vh.Pick(r, []string{"f1.parquet", "f2.parquet", fmt.Sprintf("%s_%d.parquet", ms, r.Intn(1000)), "part-0.parquet"})
+					if noParquet || db == parquetFreeDB {
+						name = vh.Pick(r, []string{"notes.txt", "compact.manifest", "f.parquet.bak", "x.parquet.tmp", "_SUCCESS"})
+						if r.Chance(50) {
+							continue
+						}
+					}
 					if r.Chance(6) {
 						name = vh.Pick(r, []string{".hidden.parquet", "notes.txt", "x.parquet.tmp", "compact.manifest", ".DS_Store", "PARQUET", "f.parquet.bak"})
 					}
 					add(db + "/" + ms + "/" + hour + "/" + name)
 				}
 			}
-			if r.Chance(45) { // an Iceberg table for this measurement
+			if r.Chance(45) || noParquet || db == parquetFreeDB { // an Iceberg table for this measurement
 				ns := "arc_" + db + ".db/" + ms
 				for _, nme := range []string{"00000-uuid.metadata.json", "00001-uuid.metadata.json", "v1.metadata.json", "snap-1-abcd.avro", "abcd-m0.avro", "version-hint.text", "stats.puffin"} {
 					if r.Chance(60) {
@@ -725,15 +752,18 @@ func genTree(r *vh.Rand) []file {
 					}
 				}
 				if r.Chance(20) {
-					add(ns + "/metadata/" + vh.Pick(r, []string{".version-hint.text.crc", "odd.parquet", "sub/deep.avro"}))
+					add(ns + "/metadata/" + vh.Pick(r, []string{".version-hint.text.crc", "sub/deep.avro", "manifest-list.avro"}))
 				}
-				if r.Chance(40) {
+				if r.Chance(20) && !noParquet && db != parquetFreeDB {
+					add(ns + "/metadata/odd.parquet")
+				}
+				if r.Chance(40) && !noParquet && db != parquetFreeDB {
 					add(ns + "/data/00000-0-data.parquet")
 				}
 			}
 		}
 	}
-	if r.Chance(10) {
+	if r.Chance(10) && !noParquet {
 		add(vh.Pick(r, []string{"root.parquet", "db1/one.parquet", "prod/.tmp/x.parquet", "README", "metadata/top.json", "x/metadata/y.parquet"}))
 	}
 	// present the tree in random order: the model sorts it into listing order itself
@@ -920,6 +950,19 @@ func main() {
 		{"empty", &faults{read: rd(one[0].path), write: map[string]int{}, optMeta: true, sqlite: true}},
 		{"empty", &faults{read: map[string]int{}, write: map[string]int{}, optMeta: true, optCfg: true, config: true}},
 		{"orig", &faults{read: map[string]int{}, write: map[string]int{}, optMeta: true, optNoData: true}}})
+	// backups with ZERO parquet files (inventory total_files = 0) that still hold Iceberg metadata
+	{
+		var iceOnly []file
+		for _, k := range []string{"00000-uuid.metadata.json", "v1.metadata.json", "snap-1-abcd.avro", "abcd-m0.avro", "version-hint.text"} {
+			iceOnly = append(iceOnly, file{"arc_prod.db/cpu/metadata/" + k, []byte("iceberg-" + k)})
+		}
+		oneMeta := []file{{"arc_prod.db/cpu/metadata/v1.metadata.json", []byte("{}")}}
+		rn.run(oneMeta, noFaults(), empty())
+		rn.run(iceOnly, withMeta(), []restoreSpec{{"empty", noFaults()}, {"empty", &faults{optMeta: true, optCfg: true}},
+			{"empty", &faults{read: rd(iceOnly[1].path)}}})
+		rn.run(append(append([]file{}, iceOnly...), file{"prod/cpu/notes.txt", []byte("n")}, file{"db1/mem/2026/01/02/03/x.parquet.tmp", nil}), noFaults(), empty())
+		rn.run([]file{{"README", []byte("r")}}, noFaults(), empty())
+	}
 	// a TRANSIENT partial read during backup: 1 of 10 files, first attempt delivers 2 bytes then fails
 	{
 		fs := nFiles(10)
@@ -992,5 +1035,5 @@ func main() {
 		}
 		rn.run(fs, bf, rs)
 	}
-	c.Finish("cases = (storage tree, backup options {SQLite metadata, arc.toml} + fault subset, 1–2 restores each with its own options {data, metadata, config}, fault subset incl. SQLite/config step failure, and target) — an edge grid (minimal restore-fault replays, skip-ratio boundary k-of-n, the repo's Iceberg layout) plus random trees (1–3 databases × 1–3 measurements × nested hour dirs, Iceberg metadata dirs, hidden / non-data files, empty and >32 KiB files); non-trivial = some fault injected, non-empty restore target, or a tree with a non-backed-up / empty / large file; distinct = distinct op+outcome text")
+	c.Finish("cases = (storage tree, backup options {SQLite metadata, arc.toml} + fault subset, 1–2 restores each with its own options {data, metadata, config}, fault subset incl. SQLite/config step failure, and target) — an edge grid (minimal restore-fault replays, skip-ratio boundary k-of-n, the repo's Iceberg layout) plus random trees (store worlds: empty, a single non-parquet file, ZERO parquet files but Iceberg metadata / other files, one parquet-free database, and the usual 1–3 databases × 1–3 measurements × nested hour dirs, Iceberg metadata dirs, hidden / non-data files, empty and >32 KiB files); non-trivial = some fault injected, non-empty restore target, or a tree with a non-backed-up / empty / large file; distinct = distinct op+outcome text")
 }
